@@ -118,6 +118,45 @@ def js_result_buffer_rules(ck, rule, facts):
               "the receive buffer / flag offset of a fallible JS method is %s: when the error payload is larger than the success payload the flag is read inside the payload and the buffer is too small" % detail, C.loc(f))
 
 
+def template_flags_consumed(ck, rule, facts, dir_re):
+    """Every `bool` field the generator computes for a template struct is read by that template (or the template it extends): a flag nobody reads is a decision the
+    generated code no longer takes (e.g. `owns_wrapped_primitive`: whether a one-field struct passes the field itself or delegates to the nested struct's _intoFFI)."""
+    tool = facts.tool
+
+    def code_of(rel, depth=0):
+        toks = tmpl.load(rel)
+        code = " ".join(v for k, v in toks if k in ("hole", "stmt"))
+        for k, v in toks:
+            m_ = re.match(r'extends\s+"([^"]+)"', v) if k == "stmt" else None
+            if m_ and depth < 3:
+                code += " " + code_of(m_.group(1), depth + 1)
+        return code
+    n = 0
+    for a in tool.data["adts"]:
+        if not a.get("file") or not a.get("line"):
+            continue
+        try:
+            src = C.read_repo(a["file"]).splitlines()
+        except C.CheckError:
+            continue
+        head = "\n".join(src[max(0, a["line"] - 6):a["line"]])
+        m_ = re.search(r'#\[template\(\s*path\s*=\s*"([^"]+)"', head)
+        if not m_ or not re.search(dir_re, m_.group(1)):
+            continue
+        flags = [fl["name"] for v in a["variants"] for fl in v["fields"] if fl["ty"] == "bool"]
+        if not flags:
+            continue
+        try:
+            code = code_of(m_.group(1))
+        except C.CheckError:
+            continue
+        n += 1
+        unused = [f_ for f_ in flags if not re.search(r"(?<![\w.])%s\b" % re.escape(f_), code)]
+        ck.expect(not unused, rule, "%s/flags-consumed/%s" % (m_.group(1), a["path"].rsplit("::", 2)[-2] if "::" in a["path"] else a["path"]), "%d flags read" % len(flags),
+                  "template %s no longer reads the flag(s) %s its generator computes: the alternative they select is gone from the generated code" % (m_.group(1), unused), "tool/templates/" + m_.group(1))
+    return n
+
+
 def js_receive_buffer_args(ck, rule, facts):
     """`new DiplomatReceiveBuf(wasm, size, align, ..)`: the size / alignment spliced in are Layout::size() / Layout::align() of the returned type's layout,
     combined at most by `max` (fallible: the larger payload) and `+ 1` (the flag) -- never clamped from above (`min`), never a constant."""
@@ -861,6 +900,51 @@ def run(ck, facts):
     js_deref_rules(ck, "R7", facts)
     js_result_buffer_rules(ck, "R2", facts)
     js_receive_buffer_args(ck, "R8", facts)
+    if template_flags_consumed(ck, "R8", facts, r"^js/") < 3:
+        ck.bad("R8", "js/flags-consumed/floor", "fewer than 3 JS template structs with boolean flags found")
+    # JS struct template: `_intoFFI` (JS -> C) and `_fromFFI` (C -> JS) decide how a struct is represented by the same flags: every flag `_fromFFI` combines with the
+    # single-primitive test is consulted by `_intoFFI` as well (a wrapper of a wrapper passes the inner struct's _intoFFI result, not the inner JS object)
+    st_txt = C.read_repo("tool/templates/js/struct.js.jinja")
+    i_into, i_from = st_txt.find("_intoFFI("), st_txt.find("static _fromFFI(")
+    sadt = next((a for a in tool.data["adts"] if a["path"].endswith("gen_struct::ImplTemplate") and "::js::" in a["path"]), None)
+    bflags = {fl["name"] for v in (sadt or {}).get("variants", []) for fl in v["fields"] if fl["ty"] == "bool"}
+    if i_into < 0 or i_from < 0 or i_from < i_into or not bflags:
+        ck.bad("R8", "js/struct.js.jinja/representation-flags", "cannot find _intoFFI / _fromFFI in the struct template or the template struct's flags", "tool/templates/js/struct.js.jinja")
+    else:
+        tags_from = re.findall(r"\{%-?(.*?)-?%\}", st_txt[i_from:], re.S)
+        wrap_flag = next((f_ for f_ in sorted(bflags) if "wraps" in f_), None)
+        co = set()
+        for t_ in tags_from:
+            ids_ = set(re.findall(r"[A-Za-z_]\w*", t_)) & bflags
+            if len(ids_) >= 2:
+                co |= ids_
+        into_ids = set(re.findall(r"[A-Za-z_]\w*", " ".join(re.findall(r"\{%-?(.*?)-?%\}", st_txt[i_into:i_from], re.S)))) & bflags
+        ck.expect(bool(co) and co <= into_ids, "R8", "js/struct.js.jinja/representation-flags", "%s consulted in both directions" % sorted(co),
+                  "`_fromFFI` decides the representation with %s but `_intoFFI` only looks at %s: one direction treats a nested single-primitive struct differently from the other" %
+                  (sorted(co), sorted(into_ids)), "tool/templates/js/struct.js.jinja")
+    # the three ForcePaddingStatus decisions stay three different texts wherever they are printed (NoForce: nothing, Force: `true`, PassThrough: the caller's own
+    # `forcePadding`): a table that prints two of them alike drops a decision C08.R6 checks the computation of
+    nfp = 0
+    for f_ in tool.fn_list:
+        if "hir" not in f_ or f_.get("dk") == "Closure" or not C.norm_path(f_["path"]).startswith("diplomat_tool::js::"):
+            continue
+        for m_ in C.walk(C.fn_body(f_)):
+            if m_.get("k") != "match" or not (m_.get("sadt") or "").endswith("ForcePaddingStatus"):
+                continue
+            outs = {}
+            for v, hits in C.decision_table(m_, adts):
+                arm_i = next((i for i, cond in hits if not cond), None)
+                r = T.arm_result(m_["arms"][arm_i]["b"]) if arm_i is not None else ("nomatch",)
+                if r[0] == "str":
+                    outs[v.variant] = r[1]
+            if len(outs) < 3:
+                continue
+            nfp += 1
+            ck.expect(len(set(outs.values())) == len(outs), "R6", "%s/force-padding-texts-distinct" % C.norm_path(f_["path"]).replace("diplomat_tool::", ""), str(outs),
+                      "two ForcePaddingStatus values are printed alike (%s): a nested struct no longer receives its caller's `forcePadding`, so the padding slots of the innermost struct "
+                      "vanish from the flattened argument list" % outs, C.loc(f_, m_.get("ln")))
+    if nfp < 1:
+        ck.bad("R6", "force-padding-texts/floor", "no table printing the three ForcePaddingStatus values found in the JS backend (1 counted)")
     js_runtime_call_rules(ck, "R8", facts)
     # an enum-typed field is written as the enum object's ffiValue: the JS enum class indexes by discriminant only for 0..N-1 enums (C11.R2, C11.R1 for js)
     import c11
